@@ -21,6 +21,7 @@ import Vlsp.Model.Registry
 import Vlsp.Model.Server
 import Vlsp.Model.DataDir
 import Vlsp.Model.Sites
+import Vlsp.Model.Parsers
 import Vlsp.Model.Config
 
 /-! Line-protocol plumbing shared by the driver's op tables. -/
@@ -405,6 +406,72 @@ def parkedStr (s : Srv) : String :=
   "parked=[" ++ ",".intercalate (all.mergeSort (fun a b => a ≤ b)) ++ "]"
 
 def outLine (msgs : List String) (s : Srv) : String := " ; ".intercalate (msgs ++ [parkedStr s])
+
+/-- unhex a kind name of a tree dump -/
+def unhexText (t : Text) : Text :=
+  let rec go : Text → List Nat → List Nat
+    | a :: b :: r, acc => go r (acc ++ [hexVal a * 16 + hexVal b])
+    | _, acc => acc
+  (String.fromUTF8! (ByteArray.mk ((go t []).map (·.toUInt8)).toArray)).toList
+
+/-- one item of a `ts.dump`: depth,kindhex,sb,eb,sr,sc,er,ec,field,flags -/
+def dumpItem (t : Text) : Option (Nat × NodeInfo) :=
+  match splitChar ',' t with
+  | [d, k, sb, eb, sr, sc, er, ec, fld, flags] =>
+    some (natOfText d, { kind := String.ofList (unhexText k), sb := natOfText sb, eb := natOfText eb, sr := natOfText sr, sc := natOfText sc,
+                          er := natOfText er, ec := natOfText ec, field := if fld == ['-'] then none else some (String.ofList fld),
+                          named := flags.any (· == 'n'), missing := flags.any (· == 'm') })
+  | _ => none
+
+def buildForest : Nat → Nat → List (Nat × NodeInfo) → List Node × List (Nat × NodeInfo)
+  | 0, _, items => ([], items)
+  | _ + 1, _, [] => ([], [])
+  | fuel + 1, d, (d', info) :: rest =>
+    if d' == d then
+      let (kids, rest1) := buildForest fuel (d + 1) rest
+      let (sibs, rest2) := buildForest fuel d rest1
+      (Node.mk info kids :: sibs, rest2)
+    else ([], (d', info) :: rest)
+
+def treeOfDump (dump : Text) : Option Node :=
+  let items := (splitChar ';' dump).filterMap dumpItem
+  (buildForest (items.length + 2) 0 items).1.head?
+
+def pkgOut (p : PkgInfo) : String :=
+  let extra := match p.extra with | some (t, a, b) => s!"S{hex t}:{a}:{b}" | none => "-"
+  let h := match p.commitHash with | some x => "S" ++ hex x | none => "-"
+  s!"{hex p.name}|{hex p.version}|{h}|{p.startOffset}|{p.endOffset}|{p.line}|{p.column}|{extra}"
+
+/-- the PEP 508 oracle of a pyproject request: pairs (requirement, answer) as the harness op `pep508` reports them -/
+def pepOf (pairs : List (Text × Text)) (dep : Text) : Parsers.Pep :=
+  match pairs.find? (·.1 == dep) with
+  | some (_, 'P' :: r) =>
+    match splitChar '|' r with
+    | [n, s] => .ok (unhexText n) (unhexText s)
+    | _ => .bad
+  | some (_, ['U']) => .url
+  | _ => .bad
+
+/-- `x.parse <eco> <text> <dump> (<requirement> <answer>)*` : the parser model on the real syntax tree -/
+def parseStep (op : String) (f : List Text) : Option String :=
+  match op, f with
+  | "x.parse", eco :: text :: dump :: rest =>
+    let ecoS := String.ofList eco
+    if ecoS == "go" then some (";".intercalate ((Parsers.goMod text).map pkgOut))
+    else
+      match treeOfDump dump with
+      | none => some ""
+      | some tree =>
+        let pkgs :=
+          if ecoS == "npm" then Parsers.packageJson text tree
+          else if ecoS == "jsr" then Parsers.denoJson text tree
+          else if ecoS == "crates" then Parsers.cargoToml text tree
+          else if ecoS == "pypi" then Parsers.pyproject (pepOf (pairs rest)) text tree
+          else if ecoS == "pnpm" then Parsers.pnpmWorkspace text tree
+          else if ecoS == "gha" then Parsers.workflow text tree
+          else []
+        some (";".intercalate (pkgs.map pkgOut))
+  | _, _ => none
 
 /-- the LSP server model, same line protocol as the harness (`l.*`), documents given as parsed packages -/
 def lspStep (st : DState) (op : String) (f : List Text) : Option (DState × String) :=
